@@ -165,6 +165,59 @@ static int classify(const SessionSpec &ss, const std::vector<ParamSpec> &params)
     for (const StdSpec &st : ss.stds) for (int pi : st.params) if (!exact_vector(params[(size_t)pi])) return 0;
     auto known_std = [&](const StdSpec &st) { for (int pi : st.params) if (!params[(size_t)pi].known()) return false; return true; };
     double f0 = ss.fv.empty() ? 1e9 : ss.fv[0];
+    // through - reflect - line on a two-port 8/10-term calibration: a known through, the same unknown reflection on
+    // both ports, a line with known (matched) reflections and one unknown transmission not in phase with the
+    // through; nothing else unknown
+    if ((cls == W8 || cls == W10) && P == 2) {
+	bool thr = false; int refl_u = -1, line_u = -1; bool other_unknown = false;
+	for (const StdSpec &st : ss.stds) {
+	    if (need_full && !st.full) continue;
+	    if (st.kind == 2) { thr = true; continue; }
+	    bool kn = known_std(st);
+	    if (kn) continue;
+	    if (st.kind == 1 && st.params[0] == st.params[1] && std::abs(param_truth(params[(size_t)st.params[0]], f0)) > 0.5) { if (refl_u >= 0 && refl_u != st.params[0]) other_unknown = true; refl_u = st.params[0]; continue; }
+	    if (st.kind == 3 && params[(size_t)st.params[0]].known() && params[(size_t)st.params[3]].known() && st.params[1] == st.params[2]) {
+		zc l = param_truth(params[(size_t)st.params[1]], f0);
+		double ph = fabs(std::arg(l)) * 180 / M_PI;
+		if (std::abs(l) > 0.5 && ph > 20 && ph < 160 && std::abs(param_truth(params[(size_t)st.params[0]], f0)) < 0.2 && std::abs(param_truth(params[(size_t)st.params[3]], f0)) < 0.2) { if (line_u >= 0 && line_u != st.params[1]) other_unknown = true; line_u = st.params[1]; continue; }
+	    }
+	    other_unknown = true;
+	}
+	if (thr && refl_u >= 0 && line_u >= 0 && refl_u != line_u && !other_unknown) return 1;
+    }
+    // 8/10-term types: three separated known reflections on one port determine that port; a known through carries
+    // the determination to the port at its other end.  Determining = every port is reached from a fully reflected one.
+    if ((cls == W8 || cls == W10) && P >= 2 && !any_unknown) {
+	std::vector<bool> good((size_t)P + 1, false);
+	for (int p = 1; p <= P; ++p) {
+	    std::vector<zc> kept;
+	    for (const StdSpec &st : ss.stds) {
+		if (!known_std(st) || (need_full && !st.full)) continue;
+		std::vector<zc> g;
+		if (st.kind == 0 && st.ports[0] == p) g.push_back(param_truth(params[(size_t)st.params[0]], f0));
+		if (st.kind == 1) for (int k = 0; k < 2; ++k) if (st.ports[(size_t)k] == p) g.push_back(param_truth(params[(size_t)st.params[(size_t)k]], f0));
+		for (zc x : g) { bool far = true; for (zc y : kept) if (std::abs(x - y) < 0.6) far = false; if (far) kept.push_back(x); }
+	    }
+	    good[(size_t)p] = kept.size() >= 3;
+	}
+	// (the throughs must join all ports into one group: the transmission terms between two groups that are
+	// each determined by their own reflections are not)
+	std::vector<bool> reached((size_t)P + 1, false);
+	for (int p = 1; p <= P; ++p) if (good[(size_t)p]) { reached[(size_t)p] = true; break; }
+	bool grew = true;
+	while (grew) {
+	    grew = false;
+	    for (const StdSpec &st : ss.stds) {
+		if (st.kind != 2 || (need_full && !st.full)) continue;
+		int a = st.ports[0], b = st.ports[1];
+		if (reached[(size_t)a] != reached[(size_t)b]) { reached[(size_t)a] = reached[(size_t)b] = true; grew = true; }
+	    }
+	}
+	bool all = true;
+	for (int p = 1; p <= P; ++p) if (!reached[(size_t)p]) all = false;
+	if (all) return 1;
+	return 0;
+    }
     for (int p = 1; p <= P; ++p) {
 	std::vector<zc> g;
 	for (const StdSpec &st : ss.stds) {
@@ -412,7 +465,8 @@ static void run_op(CalWorld &w, const Op &op, const Plan &plan)
 	lp.handle = h; lp.live = true;
 	note_new_handle(w, h);
 	for (auto &o : w.params) if (o.live && o.handle == h) { c.violate("model", "mkunknown:unique", strf("new handle %d equals a live handle", h)); return; }
-	if (g.kind == 2) lp.spec.guess = param_truth(g, g.kf[0]);
+	if (g.kind == 2) { lp.spec.guess = param_truth(g, g.kf[0]); lp.spec.kf = {g.kf.front(), g.kf.back()}; }
+	if (g.kind == 3 && !g.kf.empty()) lp.spec.kf = g.kf;
 	w.params.push_back(lp);
 	return;
     }
@@ -537,7 +591,7 @@ static void run_op(CalWorld &w, const Op &op, const Plan &plan)
 	bool covered = true, clearly_missed = false;
 	for (int pi : s.added_params) {
 	    const ParamSpec &p = w.params[(size_t)pi].spec;
-	    if (p.kind != 2) continue;
+	    if (p.kind != 2 && !(p.kind == 3 && !p.kf.empty())) continue;	// (an unknown inherits the range of a vector parameter given as its initial guess)
 	    if (p.kf.front() > s.spec.fv.front() || p.kf.back() < s.spec.fv.back()) covered = false;
 	    if (p.kf.front() > s.spec.fv.front() * 1.05 || p.kf.back() < s.spec.fv.back() * 0.95) clearly_missed = true;
 	}
@@ -595,7 +649,7 @@ static void run_op(CalWorld &w, const Op &op, const Plan &plan)
 	bool covered = true, clearly_missed = false;
 	if (s.fv_set) for (int pi : pidx) {
 	    const ParamSpec &p = w.params[(size_t)pi].spec;
-	    if (p.kind != 2) continue;
+	    if (p.kind != 2 && !(p.kind == 3 && !p.kf.empty())) continue;	// (an unknown inherits the range of a vector parameter given as its initial guess)
 	    if (p.kf.front() > s.spec.fv.front() || p.kf.back() < s.spec.fv.back()) covered = false;
 	    if (p.kf.front() > s.spec.fv.front() * 1.05 || p.kf.back() < s.spec.fv.back() * 0.95) clearly_missed = true;
 	}
@@ -695,6 +749,7 @@ static void run_op(CalWorld &w, const Op &op, const Plan &plan)
 	s.solved = true;
 	s.solved_spec = s.spec;
 	if (s.failed_solves > 0) c.count("probe.solve_after_failures");
+	if (cls == 1) { bool unk = false; for (auto &st : s.spec.stds) for (int pi : st.params) if (!pl[(size_t)pi].known()) unk = true; if (unk) c.count("probe.determining_set_with_unknown_standards_solved"); }
 	// unknown parameters of this session now carry solved values over the session's band
 	for (int pi : s.added_params) {
 	    LiveParam &lp = w.params[(size_t)pi];
